@@ -17,7 +17,7 @@ text run are written only by the constructor (runs are joined only by CellText::
 import re
 
 from ..common import guards, lib_reachable, short, where
-from ..exprs import format_parts, is_const, mentions, strip
+from ..exprs import closure_of, format_parts, is_const, mentions, strip
 from ..mirlib import Expr, Program, expr_str, op_place
 
 LEN_FN = re.compile(r"^alloc::string::String::len$|^core::str::<impl str>::len$")
@@ -402,7 +402,45 @@ def run(run):
                         r"Iterator>::next$|UnicodeWidthChar>::width$|IntoIterator>::into_iter$|::chars$|::lines$|deref$", z[1])))
                 if not loopish:
                     extra.append((t, expr_str(c)[:100]))
-        if extra:
+        chain_ok = False
+        if not (ok and len(nul) == 1 and chp):
+            # the iterator form: `.flat_map(|ch| once(ch).chain(repeat('\0').take(width(ch).unwrap_or(k).saturating_sub(1))))`
+            for q in [c_ for c_ in prog.closures_of(sb)] + [c2 for c_ in prog.closures_of(sb) for c2 in prog.closures_of(c_)]:
+                rets = [strip(r) for r in Expr(prog, q).returns()]
+                if len(rets) != 1:
+                    continue
+                r = rets[0]
+                if not (r[0] == "call" and re.search(r"Iterator::chain$", r[1]) and len(r[2]) == 2):
+                    continue
+                first, rest = strip(r[2][0]), strip(r[2][1])
+                f_ok = first[0] == "call" and re.search(r"iter::sources::once::once$", first[1]) and strip(first[2][0]) == ("param", 2, ())
+                r_ok = rest[0] == "call" and re.search(r"Iterator::take$", rest[1]) and len(rest[2]) == 2
+                if f_ok and r_ok:
+                    rep, cnt = strip(rest[2][0]), strip(rest[2][1])
+                    rep_ok = rep[0] == "call" and re.search(r"iter::sources::repeat::repeat$", rep[1]) and is_const(rep[2][0], 0)
+                    # count = width(ch).unwrap_or(k) - 1, saturating, k in {0, 1}
+                    cnt_ok = cnt[0] == "call" and cnt[1].endswith("saturating_sub") and is_const(cnt[2][1], 1) and \
+                        strip(cnt[2][0])[0] == "call" and strip(cnt[2][0])[1].endswith("unwrap_or") and \
+                        (is_const(strip(cnt[2][0])[2][1], 1) or is_const(strip(cnt[2][0])[2][1], 0)) and \
+                        strip(strip(cnt[2][0])[2][0])[0] == "call" and strip(strip(cnt[2][0])[2][0])[1].endswith("UnicodeWidthChar>::width") and \
+                        strip(strip(strip(cnt[2][0])[2][0])[2][0]) == ("param", 2, ())
+                    # the closure is the flat_map over line.chars() of every line, nothing filters in between
+                    used = False
+                    for q2 in [sb] + prog.closures_of(sb):
+                        q2ex = Expr(prog, q2)
+                        for _, t2 in prog.calls(q2):
+                            if re.search(r"Iterator::flat_map$", Program.callee_name(t2)) and len(t2["args"]) == 2:
+                                cl_, _ = closure_of(strip(q2ex.operand(t2["args"][1])))
+                                src_ = strip(q2ex.operand(t2["args"][0]))
+                                if cl_ == q and src_[0] == "call" and src_[1].endswith("str::<impl str>::chars"):
+                                    used = True
+                    if rep_ok and cnt_ok and used:
+                        chain_ok = True
+            if chain_ok:
+                run.ok("C04.F4", "every character is followed by NUL fillers for columns 1..width (once(ch).chain(repeat(NUL).take(width - 1)))", where(prog.bodies[sb]))
+        if chain_ok:
+            pass
+        elif extra:
             t, c = extra[0]
             run.bad("C04.F4", "filler-conditional", where(t),
                     "StringBuffer::from: the expansion of a character into its columns also depends on `%s`; a wide character for which the condition fails keeps one column and everything to its right is shifted" % c)
@@ -447,8 +485,8 @@ def run(run):
     for p, t, n in sites:
         if not re.search(r"<char as unicode_width::UnicodeWidthChar>::width$", n):
             continue
-        if sb and p == sb:
-            continue   # the filler loop, checked under F4
+        if sb and (p == sb or p.startswith(sb + "::{closure")):
+            continue   # the filler loop / filler chain, checked under F4
         r = [strip(x) for x in Expr(prog, p).returns()]
         ok = len(r) == 1 and mentions(r[0], lambda z: z[0] == "call" and z[1].endswith("Ord::max") and any(is_const(a, 1) for a in z[2])) and \
             mentions(r[0], lambda z: z[0] == "call" and z[1].endswith("unwrap_or") and is_const(z[2][1], 1) and
